@@ -74,6 +74,52 @@ def mutation_selftest(pid, chk, max_n=8):
     return res
 
 
+def refactor_selftest(pid, chk, max_n=6):
+    """False-alarm self-test: behaviour-preserving refactoring patches (refactors/) are applied one at a time to a scratch copy of
+    /repo; this property's rules must stay quiet on each.  Only run when the current tree itself passed (otherwise a report on the
+    refactored copy is the same real violation).  The patches are rotated by property id so that the 19 commands cover the corpus."""
+    mod = importlib.import_module("rules.%s" % pid)
+    allp = sorted(glob.glob(os.path.join(VERIF, "refactors", "*", "patch.diff")))
+    if not allp:
+        return
+    k = (int(re.sub(r"\D", "", pid) or 0) * max_n) % len(allp)
+    todo = (allp[k:] + allp[:k])[:max_n]
+    res = {"tested": 0, "quiet": 0, "skipped": [], "alarms": []}
+    for patch in todo:
+        name = os.path.basename(os.path.dirname(patch))
+        tmp = tempfile.mkdtemp(prefix="mdx-ref-")
+        try:
+            dst = os.path.join(tmp, "repo")
+            subprocess.run(["rsync", "-a", "--exclude", "target", "--exclude", ".git", extract.REPO + "/", dst + "/"], check=True)
+            r = subprocess.run(["git", "apply", "--whitespace=nowarn", patch], cwd=dst, capture_output=True, text=True)
+            if r.returncode != 0:
+                res["skipped"].append(name)
+                continue
+            try:
+                fd, info = extract.extract(repo=dst)
+            except Exception:
+                res["skipped"].append(name)
+                continue
+            c2 = base.Check(pid, "thorough")
+            try:
+                mod.run(base.World(fd), c2)
+            except Exception as ex:
+                c2.fail("ENGINE", "exception", str(ex)[:200])
+            res["tested"] += 1
+            if c2.violations():
+                res["alarms"].append({"refactor": name, "first": "%s | %s" % (c2.violations()[0]["rule"], c2.violations()[0]["instance"])})
+            else:
+                res["quiet"] += 1
+            shutil.rmtree(fd, ignore_errors=True)
+        finally:
+            shutil.rmtree(tmp, ignore_errors=True)
+    chk.notes.append("refactoring self-test: %s" % json.dumps(res))
+    if res["alarms"]:
+        chk.fail("SELFTEST-refactors", "false alarms", "the rules report behaviour-preserving refactorings: %s" % res["alarms"], "refactors/")
+    else:
+        chk.ok("SELFTEST-refactors", "corpus", "%d behaviour-preserving refactorings applied to a scratch copy: all quiet (%d skipped)" % (res["tested"], len(res["skipped"])))
+
+
 def witnesses(chk):
     wd = os.path.join(VERIF, "witnesses")
     shutil.copy(os.path.join(extract.REPO, "Cargo.lock"), os.path.join(wd, "Cargo.lock"))
@@ -175,4 +221,7 @@ def run(pid, W, chk):
         rederive(W, chk, REDERIVE[pid])
     if pid in ("C12", "C20"):
         witnesses(chk)
+    clean = not chk.violations()
     mutation_selftest(pid, chk)
+    if clean:
+        refactor_selftest(pid, chk)
